@@ -1,3 +1,2 @@
-import BioCantor.Driver.Main
 import BioCantor.Driver.SpecChunk
-def main : IO Unit := BioCantor.Driver.runSpec BioCantor.Driver.SpecChunk.ops
+def main : IO Unit := BioCantor.Driver.SpecChunk.parMain true BioCantor.Driver.SpecChunk.ops
